@@ -352,11 +352,19 @@ impl Display for Number {
 }
 
 impl Number {
+    /// The value of the literal, or zero when it does not fit in 64 bits (see [Number::try_value])
     pub fn value(&self) -> i64 {
-        match self.data.as_str() {
-            "true" => 1,
-            "false" => 0,
-            _ => i64::from_str_radix(&self.data, self.radix).ok().unwrap(),
+        self.try_value().unwrap_or_default()
+    }
+
+    /// The value of the literal, or `None` when it does not fit in 64 bits
+    pub fn try_value(&self) -> Option<i64> {
+        if self.data.eq_ignore_ascii_case("true") {
+            Some(1)
+        } else if self.data.eq_ignore_ascii_case("false") {
+            Some(0)
+        } else {
+            i64::from_str_radix(&self.data, self.radix).ok()
         }
     }
 
